@@ -441,7 +441,20 @@ def _goto(b, sp=None):
 
 def _find_closure(body, op, depth=0):
     """the closure aggregate feeding operand `op`: (def path, statement location, aggregate statement)"""
-    if op.get('k') not in ('move', 'copy') or op['place']['p']:
+    if op.get('k') not in ('move', 'copy'):
+        return None
+    if op['place']['p'] == ['*'] and depth < 4:
+        # `*r` where r = &closure (a closure captured by reference by another closure)
+        r = op['place']['l']
+        rd = [st for bl in body['blocks'] for st in bl['stmts'] if st['k'] == 'assign' and st['place']['l'] == r and not st['place']['p']]
+        if len(rd) == 1:
+            rv = rd[0]['rv']
+            if rv.get('k') == 'ref' and not rv['place']['p']:
+                return _find_closure(body, {'k': 'copy', 'place': rv['place']}, depth + 1)
+            if rv.get('k') == 'use' and rv['op'].get('k') in ('move', 'copy') and not rv['op']['place']['p']:
+                return _find_closure(body, {'k': 'copy', 'place': {'l': rv['op']['place']['l'], 'p': ['*'], 'ty': '?'}}, depth + 1)
+        return None
+    if op['place']['p']:
         return None
     c = op['place']['l']
     found = []
